@@ -1125,4 +1125,132 @@ theorem foldl_keeps {cfg : Cfg} (ops : List Op) : ∀ {s : State} {c : Nat} {cl 
     obtain ⟨cl2, h2, hm2, hp2⟩ := ih (sinv_step hs op) h1
     exact ⟨cl2, h2, by rw [hm2, hm], by rw [hp2, hp]⟩
 
+/-! ## the builder: a fold in which the last setter of each setting wins -/
+
+/-- which setting a setter writes: 0 the max-attempts source (`max_attempts` and `max_attempts_fn`), 1 the interval
+function (`fixed_backoff` / `exponential_backoff` / `backoff`), 2 the predicate, 3 the budget -/
+def Setter.slot : Setter → Nat
+  | .maxA _ => 0
+  | .maxFn _ => 0
+  | .backoff _ => 1
+  | .pred _ => 2
+  | .budget _ _ _ => 3
+
+theorem foldl_max_keep (l : List Setter) (cfg : Cfg) (h : ∀ s ∈ l, s.slot ≠ 0) :
+    (l.foldl applySetter cfg).max = cfg.max ∧ (l.foldl applySetter cfg).dyn = cfg.dyn := by
+  induction l generalizing cfg with
+  | nil => exact ⟨rfl, rfl⟩
+  | cons s tl ih =>
+    simp only [List.foldl_cons]
+    rw [(ih _ (fun s' hs' => h s' (List.mem_cons_of_mem _ hs'))).1,
+        (ih _ (fun s' hs' => h s' (List.mem_cons_of_mem _ hs'))).2]
+    have hs := h s List.mem_cons_self
+    cases s <;> simp_all [applySetter, Setter.slot]
+
+theorem foldl_backoff_keep (l : List Setter) (cfg : Cfg) (h : ∀ s ∈ l, s.slot ≠ 1) :
+    (l.foldl applySetter cfg).backoff = cfg.backoff := by
+  induction l generalizing cfg with
+  | nil => rfl
+  | cons s tl ih =>
+    simp only [List.foldl_cons]
+    rw [ih _ (fun s' hs' => h s' (List.mem_cons_of_mem _ hs'))]
+    have hs := h s List.mem_cons_self
+    cases s <;> simp_all [applySetter, Setter.slot]
+
+theorem foldl_pred_keep (l : List Setter) (cfg : Cfg) (h : ∀ s ∈ l, s.slot ≠ 2) :
+    (l.foldl applySetter cfg).pred = cfg.pred := by
+  induction l generalizing cfg with
+  | nil => rfl
+  | cons s tl ih =>
+    simp only [List.foldl_cons]
+    rw [ih _ (fun s' hs' => h s' (List.mem_cons_of_mem _ hs'))]
+    have hs := h s List.mem_cons_self
+    cases s <;> simp_all [applySetter, Setter.slot]
+
+theorem foldl_budget_keep (l : List Setter) (cfg : Cfg) (h : ∀ s ∈ l, s.slot ≠ 3) :
+    (l.foldl applySetter cfg).budget = cfg.budget ∧ (l.foldl applySetter cfg).b0 = cfg.b0 ∧
+    (l.foldl applySetter cfg).aimd = cfg.aimd := by
+  induction l generalizing cfg with
+  | nil => exact ⟨rfl, rfl, rfl⟩
+  | cons s tl ih =>
+    simp only [List.foldl_cons]
+    rw [(ih _ (fun s' hs' => h s' (List.mem_cons_of_mem _ hs'))).1,
+        (ih _ (fun s' hs' => h s' (List.mem_cons_of_mem _ hs'))).2.1,
+        (ih _ (fun s' hs' => h s' (List.mem_cons_of_mem _ hs'))).2.2]
+    have hs := h s List.mem_cons_self
+    cases s <;> simp_all [applySetter, Setter.slot]
+
+theorem build_append_cons (pre post : List Setter) (s : Setter) :
+    build (pre ++ s :: post) = post.foldl applySetter (applySetter (build pre) s) := by
+  simp [build, List.foldl_append]
+
+/-! ## where a request's `max_attempts` comes from -/
+
+/-- an operation other than the arrival of `c` does not create the record of `c` -/
+theorem step_none {cfg : Cfg} {s : State} {c : Nat} (h : lookup s.callers c = none) (op : Op)
+    (hop : ∀ ma plan, op ≠ .arrive c ma plan) : lookup (stepS cfg s op).callers c = none := by
+  cases op with
+  | adv ms => exact h
+  | arrive c' ma plan =>
+    have hne : ¬ c' = c := by intro e; subst e; exact hop ma plan rfl
+    simp only [stepS, arriveS]
+    split
+    · exact h
+    · simp [lookup, hne, h]
+  | poll c' =>
+    simp only [stepS, pollS]
+    split
+    · exact h
+    · rename_i cl0 hl
+      have hne : c ≠ c' := by intro e; subst e; simp [h] at hl
+      simp [lookup_modify_ne hne, h]
+  | drop c' =>
+    simp only [stepS, dropS]
+    split
+    · exact h
+    · rename_i cl0 hl
+      have hne : c ≠ c' := by intro e; subst e; simp [h] at hl
+      split
+      · exact h
+      · exact h
+      · simp only [emit]; simp [lookup_modify_ne hne, h]
+      · simp [lookup_modify_ne hne, h]
+  | probeBalance => simp only [stepS]; split <;> simpa [emit] using h
+  | probeLimit => simpa [stepS, emit] using h
+  | deposit => simp only [stepS]; split <;> simpa [emit] using h
+  | withdraw => simp only [stepS]; split <;> simpa [emit] using h
+  | invalid => simpa [stepS, emit] using h
+
+/-- the `max_attempts` of every request of every reachable state is what the layer's source answered at its arrival:
+the fixed value, or with `max_attempts_fn` the request's own value (the extractor's default without one) -/
+theorem maxA_origin (cfg : Cfg) (ops : List Op) (c : Nat) (cl : Caller)
+    (h : lookup (run cfg ops).callers c = some cl) :
+    ∃ ma : Option Nat, cl.maxA = (if cfg.dyn then ma.getD cfg.max else cfg.max) := by
+  have key : ∀ s, (SInv cfg s ∧ ∀ c cl, lookup s.callers c = some cl →
+        ∃ ma : Option Nat, cl.maxA = (if cfg.dyn then ma.getD cfg.max else cfg.max)) →
+      ∀ op, (SInv cfg (stepS cfg s op) ∧ ∀ c cl, lookup (stepS cfg s op).callers c = some cl →
+        ∃ ma : Option Nat, cl.maxA = (if cfg.dyn then ma.getD cfg.max else cfg.max)) := by
+    intro s ⟨hs, hq⟩ op
+    refine ⟨sinv_step hs op, ?_⟩
+    intro c cl hl
+    cases h0 : lookup s.callers c with
+    | some cl0 =>
+      obtain ⟨cl1, h1, hm, _⟩ := step_keeps hs h0 op
+      rw [h1] at hl; cases hl
+      obtain ⟨ma, hma⟩ := hq c cl0 h0
+      exact ⟨ma, by rw [hm, hma]⟩
+    | none =>
+      by_cases hop : ∃ ma plan, op = .arrive c ma plan
+      · obtain ⟨ma, plan, rfl⟩ := hop
+        obtain ⟨cl1, h1, hm, _⟩ := arrive_sets (cfg := cfg) (ma := ma) (plan := plan) h0
+        have h1' : lookup (stepS cfg s (.arrive c ma plan)).callers c = some cl1 := by simpa [stepS] using h1
+        rw [h1'] at hl; cases hl
+        exact ⟨ma, hm⟩
+      · have := step_none (cfg := cfg) h0 op (by intro ma plan e; exact hop ⟨ma, plan, e⟩)
+        rw [this] at hl; cases hl
+  have := foldl_inv (cfg := cfg) (fun s => SInv cfg s ∧ ∀ c cl, lookup s.callers c = some cl →
+        ∃ ma : Option Nat, cl.maxA = (if cfg.dyn then ma.getD cfg.max else cfg.max))
+      (fun s op hp => key s hp op) ops (init cfg) ⟨sinv_init cfg, by intro c cl hl; simp [init, lookup] at hl⟩
+  exact this.2 c cl h
+
 end TR.Retry
